@@ -9,6 +9,11 @@ sys.path.insert(0, HERE)
 import contracts  # noqa
 import props
 
+SCALE_PROPS = {"C01", "C02", "C03", "C04", "C05", "C06", "C07", "C08", "C09", "C10", "C12", "C13", "C14", "C15", "C16", "C17", "C18", "C19", "C20"}
+SCALE_NOTE = (" In addition the bounded part samples a few dozen (thorough: a few hundred) seeded random instances far outside the enumerated scopes "
+              "(part `scale` in the evidence: tens of elements, coordinates in the hundreds); that is sampling, not enumeration, and every case runs "
+              "under a time limit so that an operation that never returns is reported rather than waited for.")
+
 ALL = [json.loads(l)["id"] for l in open(os.path.join(HERE, "properties.jsonl"))]
 checks = []
 for pid in ALL:
